@@ -522,6 +522,36 @@ def canonical_ast(ast, table: NameTable):
     return tree_to_ast(ast_to_sympy(ast, table), table.mode, NameTable(table.mode))
 
 
+def constant_name_clash(ast, table: NameTable):
+    """A named constant of the tree whose notation is also a display name of the tree (imaginary unit i next to an
+    index i, Euler's e next to a charge e): the rendering is ambiguous by the choice of names, not by the printer."""
+    found = set()
+
+    def walk(x):
+        if x[0] == "cst":
+            found.add(x[1])
+        elif x[0] in ("add", "mul"):
+            for y in x[1]:
+                walk(y)
+        elif x[0] == "fn":
+            for y in x[2]:
+                walk(y)
+        elif x[0] not in ("num", "sym"):
+            for y in x[1:]:
+                walk(y)
+
+    walk(ast)
+    for name in sorted(found):
+        if table.mode == "code":
+            clash = name in table.variants
+        else:
+            tok = {"I": "i", "E": "e", "pi": "\\pi", "oo": "\\infty"}.get(name)
+            clash = tok is not None and (tok,) in table.variants
+        if clash:
+            return name
+    return None
+
+
 def ast_str(ast) -> str:
     k = ast[0]
     if k == "num":
